@@ -454,12 +454,10 @@ fn stream_fault_conservation(sc: &Scenario, p_and_r: &[u8], received: &[u8], st:
     // known finding: exactly one whole token (the one being serialised) is in the sink twice
     if got.len() > received.len() {
         let d = got.len() - received.len();
-        let x = first_diff(&got, received).min(received.len());
-        // got = received[..x'] ++ received[x'-d..] for some x' >= x... find the x' that works
+        // got = received[..x'] ++ received[x'-d..] for some x'
         for xe in (d..=received.len()).rev() {
-            if xe < x.saturating_sub(d) {
-                break;
-            }
+            // (repetitive input makes the position of the surplus ambiguous: `<!--<!--` plus one
+            // more `<!--`; every alignment is tried)
             if got[..xe] == received[..xe] && got[xe..] == received[xe - d..] {
                 let toks = crate::tokens::capture(&sc.doc, &sc.encoding, false, &sc.cuts, crate::tokens::CAP_ALL);
                 let enc = enc_of(&sc.encoding);
